@@ -277,7 +277,11 @@ def c09_classes(tier="quick", seed=0):
                "0-9": lambda c: "0" <= c <= "9", "2-4": lambda c: "2" <= c <= "4", "A-C": lambda c: "A" <= c <= "C", "\\d": lambda c: "0" <= c <= "9", "\\w": word,
                "\\s": lambda c: c in ES_WS, "\\D": lambda c: not ("0" <= c <= "9"), "\\S": lambda c: c not in ES_WS, "\\W": lambda c: not word(c)}
     del members["-"]
-    alphabet = list("abcdefgABCDEFG0123456789_- \n\t!~\u00e9\u2003\u0130\u212a")
+    # the same members spelled with escapes (ClassEscape: \\xHH, \\uHHHH, control escapes, \\b = backspace, identity escapes)
+    members.update({"\\x61": lambda c: c == "a", "\\u0062": lambda c: c == "b", "\\x61-\\x63": lambda c: "a" <= c <= "c", "\\u0061-c": lambda c: "a" <= c <= "c", "a-\\x66": lambda c: "a" <= c <= "f",
+                    "\\t": lambda c: c == "\t", "\\n": lambda c: c == "\n", "\\-": lambda c: c == "-", "\\]": lambda c: c == "]", "\\\\": lambda c: c == "\\", "\\cJ": lambda c: c == "\n",
+                    "\\b": lambda c: c == "\x08", "\\0": lambda c: c == "\0", "\\x5f": lambda c: c == "_", "\\u0030-\\u0039": lambda c: "0" <= c <= "9"})
+    alphabet = list("abcdefgABCDEFG0123456789_- \n\t!~\u00e9\u2003\u0130\u212a]\\\x08\0x14u")
     names = list(members)
     bad = None
     n = 0
@@ -303,6 +307,25 @@ def c09_classes(tier="quick", seed=0):
                     if rx.test(ch) != want and bad is None:
                         bad = (f"/^[{neg}{body}]$/{fl}.test({ch!r})", f"engine {not want}, set union says {want}")
     out = [ob("C09.classes.union", bad is None, "K4", f"{n} (class, character) cases" if bad is None else f"{bad[0]}: {bad[1]}", witness=(bad[0] if bad else None), confirmed=True if bad else None, domain=n)]
+    # \\xHH and \\uHHHH denote exactly that code unit, inside a class and outside (exhaustive)
+    bad = None
+    n = 0
+    for lit, rng_ in ((lambda c: f"\\x{c:02x}", range(256)), (lambda c: f"\\u{c:04X}", range(0, 0x10000, 1 if tier == "thorough" else 7))):
+        for c in rng_:
+            if 0xD800 <= c <= 0xDFFF:
+                continue
+            for pat in ("^" + lit(c) + "$", "^[" + lit(c) + "]$", "^[^" + lit(c) + "]$"):
+                n += 1
+                try:
+                    rx = RegExp(pat, "s")
+                    got = (rx.test(chr(c)), rx.test(chr(c ^ 1)), rx.test("x" if c != 0x78 else "y"))
+                except Exception as e:  # noqa
+                    got = f"{type(e).__name__}: {str(e)[:50]}"
+                want = (False, True, True) if pat.startswith("^[^") else (True, False, False)
+                if got != want and bad is None:
+                    bad = (f"/{pat}/s on U+{c:04X}, U+{c ^ 1:04X}, x", f"engine {got}, expected {want}")
+    out.append(ob("C09.classes.hex-and-unicode-escapes", bad is None, "K4", f"{n} (escape, position) cases" if bad is None else f"{bad[0]}: {bad[1]}",
+                  witness=(bad[0] if bad else None), confirmed=True if bad else None, domain=n))
     # shorthand escapes inside a class agree with the bare escape over all BMP code points
     import multiprocessing as mp
     jobs = [(esc, form, 0x10000) for esc in ("\\d", "\\D", "\\w", "\\W", "\\s", "\\S") for form in ("class", "negated-class")]
@@ -328,5 +351,8 @@ PROBES_C09 += [
     ("forward-backreference", "/\\1(a)/.exec('a').join('|')", "a|a"),
     ("backreference-to-later-alternative", "/(a)|\\2(b)/.exec('b').length", 3),
     ("non-space-in-class", "[/[\\S]/.test('\u00e9'), /[^\\S]/.test('\u00e9'), /[\\S]/.test('\ufeff')].join()", "true,false,false"),
+    ("hex-escape-in-class", "[/[\\x41]/.test('A'), /[\\x41]/.test('1'), /[\\u0061-c]/.test('b'), /[\\u0061-c]/.test('u'), /^[\\cJ]$/.test('\\n')].join()", "true,false,true,false,true"),
+    ("only-ascii-digits-count", "[new RegExp('^a{\u0663}$').test('a{\u0663}'), new RegExp('^a{\u0663}$').test('aaa'), new RegExp('^a{\u00b2}$').test('a{\u00b2}'), new RegExp('^a{1,\u0662}$').test('aa'),"
+                                " new RegExp('^(a)\\\\1$').test('aa')].join()", "true,false,true,false,true"),
     ("kelvin-sign-ignore-case", "[/[a-z]/i.test('\u212a'), /k/i.test('\u212a'), /I/i.test('\u0131'), /s/i.test('\u017f'), /a/i.test('\u0130')].join()", "false,false,false,false,false"),
 ]
